@@ -411,7 +411,7 @@ theorem scramFinalBare_eq (nonce : Bytes) : scramFinalBare nonce = Ref.clientFin
 theorem isPrefixOf_append (a b : Bytes) : a.isPrefixOf (a ++ b) = true := by
   induction a with
   | nil => simp [List.isPrefixOf]
-  | cons x xs ih => simp [List.isPrefixOf, ih]
+  | cons x xs ih => simp [ih]
 
 /-- reading an RFC-built server-first message -/
 theorem scram_reads_serverFirst (cnonce snonce salt : Bytes) (i : Nat) (hc : (44 : UInt8) ∉ cnonce)
@@ -484,7 +484,8 @@ theorem scram_full_exchange (C : Crypto) (n : Nat) (hM : ∀ k m, (C.HMAC k m).l
       ∧ (scramStep C cr (scramStep C cr (scramStep C cr {} []).1 (Ref.serverFirst cr.cnonce snonce salt i)).1 sfin).2 = some []
       ∧ (scramStep C cr (scramStep C cr (scramStep C cr {} []).1 (Ref.serverFirst cr.cnonce snonce salt i)).1 sfin).1.verified = true := by
   rw [scram_step0, scram_step1_honest C cr salt snonce i hsalt hi hc hs]
-  refine ⟨_, _, _, rfl, rfl, ?_, ?_, ?_⟩
+  refine ⟨_, _, [118, 61] ++ Base64.encode (C.HMAC (C.HMAC (C.Hi cr.pass salt i) sServerKey)
+    (scramAuthMessage cr (Ref.serverFirst cr.cnonce snonce salt i) (cr.cnonce ++ snonce))), rfl, rfl, ?_, ?_, ?_⟩
   · rw [refServer_on_client_final]
     simp only [Ref.scramRecordOf, Ref.storedKey, Ref.clientKey, Ref.saltedPassword, Ref.serverKey]
     rw [if_pos]
